@@ -385,14 +385,15 @@ func (srv *Server) ActivateAndServe() error {
 				return e
 			}
 		}
+		p := srv.PacketConn
 		srv.started = true
 		unlock()
-		return srv.serveUDP(srv.PacketConn)
+		return srv.serveUDP(p)
 	}
-	if srv.Listener != nil {
+	if l := srv.Listener; l != nil {
 		srv.started = true
 		unlock()
-		return srv.serveTCP(srv.Listener)
+		return srv.serveTCP(l)
 	}
 	return &Error{err: "bad listeners"}
 }
@@ -417,8 +418,11 @@ func (srv *Server) ShutdownContext(ctx context.Context) error {
 
 	srv.started = false
 
-	if srv.PacketConn != nil {
-		srv.PacketConn.SetReadDeadline(aLongTimeAgo) // Unblock reads
+	// The connection of this generation: a restart may replace srv.PacketConn
+	// as soon as the lock is released.
+	pconn := srv.PacketConn
+	if pconn != nil {
+		pconn.SetReadDeadline(aLongTimeAgo) // Unblock reads
 	}
 
 	if srv.Listener != nil {
@@ -442,8 +446,8 @@ func (srv *Server) ShutdownContext(ctx context.Context) error {
 		ctxErr = ctx.Err()
 	}
 
-	if srv.PacketConn != nil {
-		srv.PacketConn.Close()
+	if pconn != nil {
+		pconn.Close()
 	}
 
 	return ctxErr
